@@ -137,8 +137,36 @@ def check_finish_handshake(ctx, wf) -> None:
                "the notifyPostMortem subscriber is not (provably) the setter of the requested final state",
                construct="notifyPostMortem.subscribe(on_next=<setter of finalState>)")
     good_subs = [n for (n, c, on_next) in subs if expr_is_final_setter(on_next)]
+    # the component already has a final state: returning then is the one legitimate way to leave without (re)assigning
+    FINALS = ("FINISHED_STATE", "FAILED_STATE", "SHUTDOWN_STATE")
+
+    def already_final(t: ast.AST) -> Optional[str]:
+        cp = match.compare_parts(t)
+        if not cp or dotted(cp[0]) != "self.controllerState" or not isinstance(cp[1], (ast.In, ast.NotIn)):
+            return None
+        if not isinstance(cp[2], (ast.List, ast.Tuple, ast.Set)):
+            return None
+        names = {(dotted(e) or "").split(".")[-1] for e in cp[2].elts}
+        if not names or not names <= set(FINALS):
+            return None
+        return "T" if isinstance(cp[1], ast.In) else "F"
+    final_tests = match.test_nodes(cfg, already_final)
+    all_finals = [(t, lab) for (t, lab) in final_tests
+                  if {(dotted(e) or "").split(".")[-1] for e in match.compare_parts(t.ast)[2].elts} == set(FINALS)]
+    # R12: exactly one final state - the first one wins
+    rule12 = "C02.R12-one-final-state"
+    assigners = good_subs + direct
+    for a in assigners:
+        ok = bool(all_finals) and match.only_via_edges(cfg, a, [(t, match.other(lab)) for (t, lab) in all_finals])
+        ctx.ob(rule12, a.ast, ok,
+               "the final state is (scheduled to be) assigned only when the component has no final state yet" if ok else
+               "finish() assigns the requested final state although the component may already be in one: a stop lands between the "
+               "delivery-time veto and the restart in postMortemCheck (finish(SHUTDOWN)), the restart is then refused and "
+               "TransitionComponentToFinalState calls finish(FAILED): the component is seen SHUTDOWN and then FAILED - two final states, "
+               "the last one neither its rule-given state nor shut down", construct=short(a.ast, 50) + " <- no final state yet")
+    ctx.floor(rule12, len(assigners), 2, "final-state assignments / setter subscriptions in ComponentState.finish")
     # (a) totality
-    rr = cfg.reach([cfg.entry], blocked=good_subs + direct, ignore_labels=("exc",))
+    rr = cfg.reach([cfg.entry], blocked=good_subs + direct, blocked_edges=[(t.id, lab) for (t, lab) in all_finals], ignore_labels=("exc",))
     ok = cfg.exit.id not in rr
     ctx.ob(rule, fn, ok, "every path through finish() sets the final state or subscribes its setter" if ok else
            "finish() can return without setting the final state and without subscribing the setter: the component never "
@@ -324,6 +352,8 @@ def run(ctx) -> None:
         ("C02.R11-observed-before-stopped", "when finishedCheck stops a stage it first gives an observer (_fake_finish_with_state subscribes "
                                             "finishedCheck) to every component that is not staged in: nothing but 'not in comp_staged_in' and "
                                             "'finish() not called yet' decides that, and the loop covers the collection that is then stopped"),
+        ("C02.R12-one-final-state", "ComponentState.finish assigns (or schedules) the requested final state only when the component is not "
+                                    "already in FINISHED/FAILED/SHUTDOWN: whatever the ordering of the callers, the first final state stays"),
         ("C02.R7-shutdown-table", "aggregating consumer shuts down on any non-replicated SHUTDOWN input or when all replicated inputs are SHUTDOWN"),
     ]:
         ctx.rule(rid, text)
